@@ -45,7 +45,10 @@ LogOK == Single => LET el == E.log IN
                    /\ \A j \in 1..Len(el) : j <= Len(O.log) =>
                         /\ O.log[j].req = el[j].req
                         /\ O.log[j].at  = el[j].at
-                        /\ O.log[j].val = el[j].val
+                        \* [rand]: some row of the list; everything else: exactly the value
+                        /\ IF el[j].rnd > 0
+                           THEN O.log[j].val.t = el[j].val.t /\ O.log[j].val.n \in 0..(el[j].rnd - 1)
+                           ELSE O.log[j].val = el[j].val
 
 \* pauses: the request after a step with sleep d arrives no earlier than d ms after that step's request
 GapsOK == Single => LET el == E.log IN \A j \in 1..Len(el) : j <= Len(O.log) => O.log[j].since >= el[j].gap
@@ -59,6 +62,30 @@ SamplesOK == Single => LET es == E.samples IN
                             /\ O.samples[j].proto = es[j].proto
                             /\ O.samples[j].err = es[j].err
                             /\ O.samples[j].empty = es[j].err
+
+\* the description as the provider expanded it (what the gun is handed): per scenario the steps in order, each with the
+\* pause that follows it, and the scenario's min_waiting_time - exactly Expand(items)
+StepsOK == (l > 0 /\ O.build_err = "") =>
+    \A j \in 1..Len(C.scens) :
+        LET e == Expand(C.scens[j].items)
+            mine == {k \in 1..Len(O.steps) : O.steps[k].sc = C.scens[j].name}
+        IN /\ Cardinality(mine) = 1
+           /\ \A k \in mine : /\ O.steps[k].mwt = C.scens[j].mwt
+                               /\ Len(O.steps[k].steps) = Len(e)
+                               /\ \A n \in 1..Len(e) : n <= Len(O.steps[k].steps) =>
+                                     /\ O.steps[k].steps[n].name = e[n].name
+                                     /\ O.steps[k].steps[n].sleep = e[n].sleep
+
+\* a shot takes at least its pauses and at least min_waiting_time (one-sided: nothing is demanded about how much longer).
+\* Observed: Release - Acquire of every ammo at the provider (one instance: the shots in order).
+ShotSpanOK == (l > 0 /\ R.inst = 1 /\ O.build_err = "" /\ O.run_err = "") =>
+    LET ed == E.durs IN
+    /\ Len(O.spans) = Len(ed)
+    /\ IF Len(C.scens) = 1
+       THEN \A n \in 1..Len(ed) : n <= Len(O.spans) => O.spans[n].sc = ed[n].sc /\ O.spans[n].ms >= ed[n].dur
+       ELSE \* several scenarios: the order inside a ring cycle is free; every shot of a scenario takes at least what the
+            \* shortest shot of that scenario takes in the specification's run
+            \A n \in 1..Len(O.spans) : \E m \in 1..Len(ed) : ed[m].sc = O.spans[n].sc /\ O.spans[n].ms >= ed[m].dur
 
 \* ammo ring: in every whole cycle (sum of weights / gcd consecutive ammo) each scenario appears weight / gcd times
 RingOK == l > 0 => LET ws == [j \in 1..Len(C.scens) |-> EffW(C.scens[j].weight)]
@@ -75,9 +102,9 @@ SeenRows(src)  == {j \in 1..Len(O.log) : O.log[j].val.t = SrcTag(src)}
 Bags == l > 0 /\ C.fam = "mfail"
 NextRowsOK == (Multi /\ ~Bags) => LET eh == E.handed IN \A src \in Sources :
                  /\ Cardinality(SeenRows(src)) = Cardinality({j \in 1..Len(eh) : eh[j].src = src})
-                 /\ \A r \in 0..(C.rows - 1) :
+                 /\ \A r \in 0..(PathRows(C, src) - 1) :
                       Cardinality({j \in SeenRows(src) : O.log[j].val.n = r})
-                        = Cardinality({j \in 1..Len(eh) : eh[j].src = src /\ eh[j].n % C.rows = r})
+                        = Cardinality({j \in 1..Len(eh) : eh[j].src = src /\ eh[j].n % PathRows(C, src) = r})
 MultiSamplesOK == (Multi /\ ~Bags) => LET e == E IN
                            /\ Len(O.samples) = Len(e.samples)
                            /\ Len(O.log) = Len(e.log)
